@@ -9,7 +9,7 @@ import os
 from ..model import func_nodes, norm, AnalysisError, static_truth
 from ..cfg import calls_in, _walk_noscope
 from .. import guards
-from .util import (none_test, effect_nodes, calls_method_of, stmt_of, parent, cfg_nodes)
+from .util import (none_test, effect_nodes, calls_method_of, stmt_of, parent, cfg_nodes, inline_locals)
 
 RT = "loky.backend.resource_tracker"
 ABSENT = "absent"
@@ -214,7 +214,14 @@ def _loop_parts(e):
             loop = n
     if loop is None:
         raise AnalysisError("tracker: read loop not found")
-    tr = [s for s in loop.body if isinstance(s, ast.Try)]
+    def tries(stmts):
+        for s in stmts:
+            if isinstance(s, ast.Try):
+                yield s
+            elif isinstance(s, ast.If):      # a guard clause written the other way round nests the rest of the body
+                yield from tries(s.body)
+                yield from tries(s.orelse)
+    tr = list(tries(loop.body))
     if len(tr) != 1:
         raise AnalysisError("tracker: the per-line try block not found")
     tr = tr[0]
@@ -1006,7 +1013,8 @@ def r_relaunch(e, R):
     g = e.cfg(er)
     held = e.held(er)
     withs = [n for n in g.nodes if n.kind == "with_enter"]
-    R.check(bool(withs) and isinstance(withs[0].ast.context_expr, ast.Attribute) and withs[0].ast.context_expr.attr == "_lock", "R-RELAUNCH",
+    ce0 = inline_locals(e, er, withs[0].ast.context_expr) if withs else None
+    R.check(bool(withs) and isinstance(ce0, ast.Attribute) and ce0.attr == "_lock", "R-RELAUNCH",
             "ensure_running: body under the tracker lock", er.short, "with self._lock", "two threads can launch two trackers", e.loc(er, er.node))
     alive = [t for t in g.nodes if t.kind == "test" and any(isinstance(c.func, ast.Attribute) and c.func.attr == "_check_alive" for c in calls_in(t))]
     sp = [n for n in g.nodes for c in calls_in(n) if e.callees_of(c) & {f"{RT}:spawnv_passfds"}]
